@@ -147,7 +147,7 @@ fn case_of(h: &[u16]) -> String { h.iter().map(|x| x.to_string()).collect::<Vec<
 
 pub fn run(ctx: &Ctx) -> Report {
     let mut rep = Report::new("explicit-state BFS over histories of 23 operations (load a program with calls, traps and I/O; step_in; run_with_limit(3); toggle strict / real traps / ignore privilege / debug frames; insert/remove PC and register breakpoints; add/remove a recording device; replace keyboard and display; map/unmap the PC register; unmap the default PSR and MCR mappings; host writes to a register, memory (user and OS), PSR and saved SP; type a key; reset) with reset() appended after EVERY prefix: all of 64K non-I/O memory, registers, PC, PSR, saved SP, frame depth/frames presence, instruction count and pause status must equal Simulator::new(same flags); flags, breakpoint set, MCR handle (Arc::ptr_eq), device handler (derived Debug), internal mappings and device dispatch must be kept. Known{x1357} (complete BFS) and Seeded{99} (same histories). non-trivial = states at depth >= 1");
-    let depth = ctx.pick(4usize, 6usize);
+    let depth = ctx.pick(4usize, 7usize);
     let known = MachineInitStrategy::Known { value: 0x1357 };
     let (states, transitions, frontier, per_depth, capped) = bfs_hist(ctx, &mut rep.acc, OPS.len(), depth, &|h| format!("k:{}", case_of(h)), |h| visit_with(h, known));
     rep.acc.states = states; rep.acc.transitions = transitions; rep.acc.nontrivial = states - 1;
